@@ -358,6 +358,12 @@ def check_spellings(res, B, elems, xs, case, sub, tol=1e-11):
             w_ = B.call("product", p, q)
             judge("G.product(X, Y)", lambda: G.product(E(p), E(q)), w_, dict(info, Y=np.asarray(q)))
             judge("G.product(left=X, right=Y)", lambda: G.product(left=E(p), right=E(q)), w_, dict(info, Y=np.asarray(q)))
+
+            def imul(p=p, q=q):
+                Xo = E(p)
+                Xo *= E(q)  # augmented assignment
+                return Xo
+            judge("X *= Y", imul, w_, dict(info, Y=np.asarray(q)))
         judge("X == X", lambda: E(p) == E(p), np.array([[1.0]]), info)
         if not np.array_equal(p, q):
             judge("X == Y", lambda: E(p) == E(q), np.array([[0.0]]), dict(info, Y=np.asarray(q)))
@@ -398,6 +404,57 @@ def check_spellings(res, B, elems, xs, case, sub, tol=1e-11):
                                ("A.scalar_multiplication(3, x)", lambda: A.scalar_multiplication(3, a(x)), 3 * x_), ("x == x", lambda: a(x) == a(x), np.array([[1.0]])),
                                ("copy.deepcopy(x).param", lambda: copy.deepcopy(a(x)), x_), ("copy.copy(x).param", lambda: copy.copy(a(x)), x_)):
             judge(name, fn, np.asarray(want, dtype=float).reshape(-1, 1) if np.size(want) > 1 else np.asarray(want, dtype=float), dict(info, y=y_))
+
+
+def check_symbol_names(res, B, elems, xs, case, sub, ops_wanted, tol=1e-11):
+    """N12: two DIFFERENT casadi symbols that carry the SAME NAME (`ca.SX.sym("q", n)` called twice - the usual way to build two elements)
+    are different variables: one Function of both, [op(elem(a)), op(elem(b))] and the binary operations op(elem(a), elem(b)), evaluated at
+    different values, gives each element its own result (tables or caches keyed on the printed form / the name merge them)."""
+    G, A = B.G, B.G.algebra
+    ops = {k: v for k, v in group_ops(B).items() if k in ops_wanted}
+
+    def mk(kind, par):
+        return G.elem(par) if kind == "g" else A.elem(par)
+    for op, (kinds, fn) in ops.items():
+        kind = kinds[0]
+        pool = elems if kind == "g" else xs
+        if len(pool) < 2 or len(set(kinds)) != 1:
+            continue
+        for i in range(min(len(pool), 6)):
+            pa, pb = np.asarray(pool[i], dtype=float), np.asarray(pool[(i + 1) % len(pool)], dtype=float)
+            if np.array_equal(pa, pb) or not (np.all(np.isfinite(pa)) and np.all(np.isfinite(pb))):
+                continue
+            for nm in ("q", "x", "X"):
+                res.count("evaluations")
+                res.count("same_name_symbol_calls")
+                sa, sb = ca.SX.sym(nm, len(pa)), ca.SX.sym(nm, len(pb))
+                try:
+                    with contextlib.redirect_stdout(io.StringIO()):
+                        if len(kinds) == 1:
+                            F = ca.Function("two", [sa, sb], [ca.densify(ca.SX(fn(mk(kind, sa)))), ca.densify(ca.SX(fn(mk(kind, sb))))])
+                            got = [np.array(v, dtype=float) for v in F(ca.DM(pa), ca.DM(pb))]
+                            want = [B.call(op, pa), B.call(op, pb)]
+                        else:
+                            F = ca.Function("bin", [sa, sb], [ca.densify(ca.SX(fn(mk(kind, sa), mk(kind, sb))))])
+                            got = [np.array(F(ca.DM(pa), ca.DM(pb)), dtype=float)]
+                            want = [B.call(op, pa, pb)]
+                except NotImplementedError:
+                    break
+                except RuntimeError as ex:
+                    # e.g. "free variables": the expression refers to a symbol that is not one of the two inputs
+                    res.fail(site="%s.%s" % (B.name, op), clause="numeric_api:same_named_symbols_are_different_variables", cls="raises", detail=dict(name=nm, error=str(ex)[:200]), sub=sub, case=case)
+                    break
+                bad = False
+                for g_, w_ in zip(got, want):
+                    if not np.all(np.isfinite(w_)):
+                        continue
+                    ok, err = _same(g_.reshape(w_.shape) if g_.size == w_.size else g_, w_, tol)
+                    if not ok:
+                        res.fail(site="%s.%s" % (B.name, op), clause="numeric_api:same_named_symbols_are_different_variables", cls="name=" + nm, detail=dict(op=op, a=pa, b=pb, got=g_, want=w_, err=err), sub=sub, case=case)
+                        bad = True
+                        break
+                if bad:
+                    break
 
 
 def check_history(res, B, elems, xs, case, sub, targets, preludes, tol=1e-11):
